@@ -145,7 +145,7 @@ func c05(c *Ctx) {
 	r.Rule("R5.2", "every method and exported function of the reader packages whose name is not a consuming operation, every member of the lazy reifier table and the \"unixfs\" reifier itself cannot reach a block-load site in the closed-world call graph")
 	r.Rule("R5.3", "in the lookup path, each call of a loader lies outside every CFG cycle and the link it loads derives from the bucket chosen by hashBits.Next")
 	r.Rule("R5.4", "in the stream builder every load-reaching call other than the size query is dominated by the not-skipped edge of the comparison of the read position with the child's end; the size query has a load-free success path via Tsize and one via BlockSizes")
-	r.Rule("R5.6", "positioning never consumes content: no Seek method of the file readers can reach a Read method (or an io.Copy/ReadAll/ReadFull drain) in the closed-world call graph — a seek may query sizes but must not read through chunks")
+	r.Rule("R5.6", "positioning never consumes content: no Seek method of the file readers can reach a Read method (or an io.Copy/CopyN/ReadAll/ReadFull drain) in the closed-world call graph — a seek may query sizes but must not read through chunks; and no Read method can reach such a drain: a read fetches what it delivers into the caller's buffer, it never catches up by discarding")
 	r.Rule("R5.7", "single descent: the name-lookup operations and the shard loaders cannot reach a walker (a function that issues loads inside a loop); a lookup loads one shard per level and never a subtree")
 	r.Rule("R5.5", "KnownReifiers[\"unixfs\"] is a function that dispatches through a table all of whose members are load-free, distinct from the table used by \"unixfs-preload\"")
 
@@ -505,6 +505,9 @@ func (c *Ctx) checkSkipBeforeOpen(reach, fetch map[*ssa.Function]bool) {
 				return false, false
 			})
 			if !startsBefore {
+				startsBefore = c.helperDefersChildren(fn, ci, skipIf, posFields, reach)
+			}
+			if !startsBefore {
 				bad = append(bad, fmt.Sprintf("load-reaching call %s at %s opens a child although it does not contain the read position (children after the first must stay deferred until they are read)", shorten(core.CalleeName(ci)), c.P.Pos(ci.Pos())))
 			}
 		}
@@ -660,7 +663,115 @@ func (c *Ctx) checkSizeQuery(q *ssa.Function, reach map[*ssa.Function]bool) {
 	if !viaBlockSizes {
 		bad = append(bad, "no load-free success path through the node's BlockSizes (dag-pb children would be opened to learn their size)")
 	}
+	// whether the child is opened must not depend on the value of a recorded size (0 is a size like any other)
+	if why := c.recordedSizeDecidesOpen(q, loadReaching); why != "" {
+		bad = append(bad, why)
+	}
 	c.R.Check(len(bad) == 0, "R5.4", key, pos, fmt.Sprintf("%d paths: load-free size answers exist via Tsize and via BlockSizes; opening the child is only the fallback", npaths), strings.Join(bad, "; "))
+}
+
+// recordedSizeDecidesOpen: taints the integers read from the node's BlockSizes (AsInt/Int on an element of BlockSizes, also
+// when read inside a helper of the same package that returns it) and reports a conditional on a tainted value one of
+// whose arms contains a load-reaching call.
+func (c *Ctx) recordedSizeDecidesOpen(q *ssa.Function, loadReaching map[ssa.Instruction]bool) string {
+	tainted := map[ssa.Value]bool{}
+	var helperReturnsSize func(h *ssa.Function, depth int) map[int]bool
+	var taintIn func(fn *ssa.Function, depth int) map[ssa.Value]bool
+	memo := map[*ssa.Function]map[int]bool{}
+	taintIn = func(fn *ssa.Function, depth int) map[ssa.Value]bool {
+		t := map[ssa.Value]bool{}
+		for changed, rounds := true, 0; changed && rounds < 8; rounds++ {
+			changed = false
+			mark := func(v ssa.Value) {
+				if !t[v] {
+					t[v] = true
+					changed = true
+				}
+			}
+			for _, b := range fn.Blocks {
+				for _, ins := range b.Instrs {
+					switch x := ins.(type) {
+					case *ssa.Call:
+						name, recv := methodCall(x)
+						if (name == "AsInt" || name == "Int") && recv != nil && derivesFromBlockSizes(recv, 0) {
+							mark(x)
+						}
+						if h := x.Call.StaticCallee(); h != nil && depth < 2 && h != fn && len(h.Blocks) > 0 {
+							if rel, ok := c.P.PkgOf(h); ok && rel == "file" {
+								for idx := range helperReturnsSize(h, depth+1) {
+									if h.Signature.Results().Len() == 1 {
+										mark(x)
+									} else if ev := extractOf(x, idx); ev != nil {
+										mark(ev)
+									}
+								}
+							}
+						}
+					case *ssa.Extract:
+						if t[x.Tuple] && x.Index == 0 {
+							mark(x)
+						}
+					case *ssa.Convert:
+						if t[x.X] {
+							mark(x)
+						}
+					case *ssa.BinOp:
+						if (t[x.X] || t[x.Y]) && x.Op != token.EQL && x.Op != token.NEQ && x.Op != token.LSS && x.Op != token.GTR && x.Op != token.LEQ && x.Op != token.GEQ {
+							mark(x)
+						}
+					case *ssa.Phi:
+						for _, e := range x.Edges {
+							if t[e] {
+								mark(x)
+							}
+						}
+					}
+				}
+			}
+		}
+		return t
+	}
+	helperReturnsSize = func(h *ssa.Function, depth int) map[int]bool {
+		if m, ok := memo[h]; ok {
+			return m
+		}
+		memo[h] = map[int]bool{}
+		t := taintIn(h, depth)
+		out := map[int]bool{}
+		for _, ret := range core.Returns(h) {
+			for i, rv := range core.ResolvedResults(ret) {
+				if t[rv] {
+					out[i] = true
+				}
+			}
+		}
+		memo[h] = out
+		return out
+	}
+	tainted = taintIn(q, 0)
+	for _, b := range q.Blocks {
+		iff := core.BlockIf(b)
+		if iff == nil {
+			continue
+		}
+		bo, ok := iff.Cond.(*ssa.BinOp)
+		if !ok || !(tainted[bo.X] || tainted[bo.Y]) {
+			continue
+		}
+		for _, succ := range b.Succs {
+			for _, ob := range q.Blocks {
+				if !(succ == ob || succ.Dominates(ob)) || len(succ.Preds) != 1 {
+					continue
+				}
+				for _, ins := range ob.Instrs {
+					if loadReaching[ins] {
+						return fmt.Sprintf("the comparison at %s on the value of the recorded block size decides whether the child is opened at %s (a recorded size — zero included — must answer the query without loading)", c.P.Pos(iff.Pos()), c.P.Pos(ins.Pos()))
+					}
+				}
+			}
+		}
+	}
+	return ""
 }
 
 // checkSeekNeverReads implements R5.6.
@@ -669,11 +780,15 @@ func (c *Ctx) checkSeekNeverReads() {
 	n := 0
 	for _, fn := range c.G.Funcs() {
 		rel, ok := c.P.PkgOf(fn)
-		if !ok || rel != "file" || fn.Synthetic != "" || !seekSig(fn) {
+		if !ok || rel != "file" || fn.Synthetic != "" || !(seekSig(fn) || readSig(fn)) {
 			continue
 		}
+		isRead := readSig(fn)
 		n++
 		key := core.FuncName(fn) + "/seek-never-reads"
+		if isRead {
+			key = core.FuncName(fn) + "/read-never-drains"
+		}
 		// BFS over G; a hit is a repository Read method or a call of an io drain helper
 		seen := map[*ssa.Function]bool{fn: true}
 		pred := map[*ssa.Function]*ssa.Function{}
@@ -683,7 +798,7 @@ func (c *Ctx) checkSeekNeverReads() {
 		for len(queue) > 0 && hit == nil {
 			f := queue[0]
 			queue = queue[1:]
-			if f != fn && readSig(f) {
+			if f != fn && readSig(f) && !isRead {
 				hit, what = f, "reaches "+core.FuncName(f)
 				break
 			}
@@ -716,9 +831,13 @@ func (c *Ctx) checkSeekNeverReads() {
 				break
 			}
 		}
+		if isRead {
+			r.Violate("R5.6", key, c.P.Pos(fn.Pos()), "a read pulls content it does not deliver ("+what+"): "+core.PathString(path)+" — chunks between an earlier position and the requested one are fetched and discarded")
+			continue
+		}
 		r.Violate("R5.6", key, c.P.Pos(fn.Pos()), "a seek consumes content ("+what+"): "+core.PathString(path)+" — blocks outside the requested range are fetched")
 	}
-	r.Floor("R5.6", n, 3)
+	r.Floor("R5.6", n, 6)
 }
 
 // checkSingleDescent implements R5.7.
@@ -838,4 +957,128 @@ func (c *Ctx) onLookupPath(fn *ssa.Function) bool {
 		}
 	}
 	return c.lookupPath[fn]
+}
+
+// helperDefersChildren: the load-reaching call ci of the stream builder goes to a repository helper which itself opens or
+// positions the child only under `start < position`, where start is a parameter bound at ci to the running start offset
+// that the builder's skip test uses, and position is the reader's position field.
+func (c *Ctx) helperDefersChildren(fn *ssa.Function, ci ssa.CallInstruction, skipIf *ssa.If, posFields []*types.Var, reach map[*ssa.Function]bool) bool {
+	h := ci.Common().StaticCallee()
+	if h == nil || len(h.Blocks) == 0 {
+		return false
+	}
+	if rel, ok := c.P.PkgOf(h); !ok || rel != "file" {
+		return false
+	}
+	// operands of the skip comparison's right-hand side (start + size)
+	starts := map[ssa.Value]bool{}
+	if bo, ok := skipIf.Cond.(*ssa.BinOp); ok {
+		var collect func(v ssa.Value, d int)
+		collect = func(v ssa.Value, d int) {
+			if d > 3 {
+				return
+			}
+			starts[v] = true
+			if b, ok := v.(*ssa.BinOp); ok && b.Op == token.ADD {
+				collect(b.X, d+1)
+				collect(b.Y, d+1)
+			}
+		}
+		collect(bo.Y, 0)
+	}
+	n := 0
+	for _, hc := range core.CallsIn(h) {
+		reaches := false
+		for _, e := range c.G.Out[h] {
+			if e.Site == hc.(ssa.Instruction) && reach[e.Callee] {
+				reaches = true
+			}
+		}
+		if !reaches {
+			continue
+		}
+		n++
+		ok := core.GuardedBy(hc.Block(), func(cond ssa.Value) (bool, bool) {
+			bo, isB := cond.(*ssa.BinOp)
+			if !isB {
+				return false, false
+			}
+			isPos := func(v ssa.Value) bool {
+				u, ok := v.(*ssa.UnOp)
+				return ok && c.fieldOfAddr(h, u.X) != nil && containsVar(posFields, c.fieldOfAddr(h, u.X))
+			}
+			isStart := func(v ssa.Value) bool {
+				p, ok := v.(*ssa.Parameter)
+				if !ok {
+					return false
+				}
+				idx := -1
+				for i, q := range h.Params {
+					if q == p {
+						idx = i
+					}
+				}
+				return idx >= 0 && idx < len(ci.Common().Args) && starts[ci.Common().Args[idx]]
+			}
+			switch {
+			case bo.Op == token.LSS && isPos(bo.Y) && isStart(bo.X):
+				return true, true
+			case bo.Op == token.GTR && isPos(bo.X) && isStart(bo.Y):
+				return true, true
+			}
+			return false, false
+		})
+		if !ok {
+			return false
+		}
+	}
+	return n > 0
+}
+
+// derivesFromBlockSizes: v is (an element looked up in) the BlockSizes member of a decoded UnixFS node.
+func derivesFromBlockSizes(v ssa.Value, depth int) bool {
+	if v == nil || depth > 10 {
+		return false
+	}
+	switch x := v.(type) {
+	case *ssa.FieldAddr:
+		if _, fv, ok := core.FieldAddrOf(x); ok && fv.Name() == "BlockSizes" {
+			return true
+		}
+		return derivesFromBlockSizes(x.X, depth+1)
+	case *ssa.Field:
+		if st, ok := x.X.Type().Underlying().(*types.Struct); ok && st.Field(x.Field).Name() == "BlockSizes" {
+			return true
+		}
+		return derivesFromBlockSizes(x.X, depth+1)
+	case *ssa.Call:
+		cc := x.Common()
+		if f := cc.StaticCallee(); f != nil {
+			if f.Name() == "FieldBlockSizes" {
+				return true
+			}
+			if f.Signature.Recv() != nil && len(cc.Args) > 0 {
+				return derivesFromBlockSizes(cc.Args[0], depth+1)
+			}
+			return false
+		}
+		if cc.IsInvoke() {
+			return derivesFromBlockSizes(cc.Value, depth+1)
+		}
+	case *ssa.Extract:
+		return derivesFromBlockSizes(x.Tuple, depth+1)
+	case *ssa.UnOp:
+		return derivesFromBlockSizes(x.X, depth+1)
+	case *ssa.ChangeType:
+		return derivesFromBlockSizes(x.X, depth+1)
+	case *ssa.MakeInterface:
+		return derivesFromBlockSizes(x.X, depth+1)
+	case *ssa.Phi:
+		for _, e := range x.Edges {
+			if derivesFromBlockSizes(e, depth+1) {
+				return true
+			}
+		}
+	}
+	return false
 }
